@@ -176,7 +176,12 @@ CheckGeo(m, e) ==
       plain == ~c.att \/ within                      \* no attenuation applies
       lo == ONE - c.st * 1000
       b == m.base
-  IN IF e.a = "x" THEN (IF e.p THEN "no_panic" ELSE IF ~e.fin THEN "output_finite" ELSE "")    \* arbitrary f32 coordinates
+  IN IF e.a = "x" THEN (IF e.p THEN "no_panic" ELSE IF ~e.fin THEN "output_finite"              \* arbitrary f32 coordinates
+                        \* the emitter exactly on one of the listener's ears, well within the minimum distance: no attenuation, and
+                        \* each ear's gain within [1 - strength, 1] like anywhere else (silence there is not "finite", it is a hole)
+                        ELSE IF c.cls = "on-ear" /\ "gl" \in DOMAIN e /\ (e.gl > ONE + tol \/ e.gr > ONE + tol) THEN "gain_at_most_one"
+                        ELSE IF c.cls = "on-ear" /\ "gl" \in DOMAIN e /\ (e.gl < lo - tol \/ e.gr < lo - tol) THEN "ear_gain_at_least_one_minus_strength"
+                        ELSE "")
      ELSE IF e.a # "o" THEN ""
      ELSE IF e.p THEN "no_panic"
      ELSE IF ~IsRot(e.R) THEN "harness_bad_orientation"
